@@ -63,7 +63,7 @@ TNext == /\ res = "pending"
             IF e.driver # "" THEN res' = "skip"
             ELSE LET f == Failed(e) IN
               /\ res' = IF f # <<>> THEN "no" ELSE IF ~ModelOK(e) THEN "drift" ELSE "yes"
-              /\ (res' = "no" => PrintT(<<"BAD", i, "prop", f[1][1], Detail(e, f[1][1]), e.op.k>>))
+              /\ (res' = "no" => \A q \in 1..Len(f) : PrintT(<<"BAD", i, "prop", f[q][1], Detail(e, f[q][1]), e.op.k>>))
               /\ (res' = "drift" => PrintT(<<"BAD", i, "model", IF ~Enabled(e.pre, e.op) THEN "not-enabled"
                                              ELSE IF e.post # Apply(e.pre, e.op) THEN "edit-effect" ELSE "views", "", e.op.k>>))
          /\ UNCHANGED i
